@@ -186,24 +186,6 @@ def _count(xs):
     return dict(sorted(out.items(), key=lambda kv: -kv[1]))
 
 
-if __name__ == "__main__":
-    sys.path.insert(0, VERIF)
-    a = sys.argv[1:]
-    if a[0] == "all":
-        sweep_all(repo=a[a.index("--repo") + 1] if "--repo" in a else "/repo", jobs=int(a[a.index("--jobs") + 1]) if "--jobs" in a else 12, out=a[a.index("--out") + 1] if "--out" in a else None)
-        sys.exit(0)
-    prop = a[0]
-    limit = int(a[a.index("--limit") + 1]) if "--limit" in a else None
-    seed = int(a[a.index("--seed") + 1]) if "--seed" in a else 0
-    repo = a[a.index("--repo") + 1] if "--repo" in a else "/repo"
-    r = sweep(prop, repo=repo, limit=limit, seed=seed, scope="anchors" if "--anchors" in a else "obligations")
-    surv = r.pop("survivors")
-    print(json.dumps(r, indent=1))
-    if "--list-survivors" in a:
-        for s in surv:
-            print("  SURVIVED", s)
-
-
 def sweep_all(repo="/repo", jobs=12, out=None):
     """Every mutant of every function that carries an obligation of some property is run against
     the checks of exactly those properties; a survivor is flagged by none of them."""
@@ -254,3 +236,21 @@ def sweep_all(repo="/repo", jobs=12, out=None):
         with open(out, "w") as fh:
             json.dump({"summary": summary, "survivors": [f"{r[0]}:{r[3]} [{r[1]}] {r[2]} {r[4]}  (checked by {','.join(sorted(r[5]))})" for r in sorted(surv)], "undecided": [f"{r[0]}:{r[3]} [{r[1]}] {r[2]} {r[4]}" for r in sorted(und)]}, fh, indent=1)
     return summary
+
+
+if __name__ == "__main__":
+    sys.path.insert(0, VERIF)
+    a = sys.argv[1:]
+    if a[0] == "all":
+        sweep_all(repo=a[a.index("--repo") + 1] if "--repo" in a else "/repo", jobs=int(a[a.index("--jobs") + 1]) if "--jobs" in a else 12, out=a[a.index("--out") + 1] if "--out" in a else None)
+        sys.exit(0)
+    prop = a[0]
+    limit = int(a[a.index("--limit") + 1]) if "--limit" in a else None
+    seed = int(a[a.index("--seed") + 1]) if "--seed" in a else 0
+    repo = a[a.index("--repo") + 1] if "--repo" in a else "/repo"
+    r = sweep(prop, repo=repo, limit=limit, seed=seed, scope="anchors" if "--anchors" in a else "obligations")
+    surv = r.pop("survivors")
+    print(json.dumps(r, indent=1))
+    if "--list-survivors" in a:
+        for s in surv:
+            print("  SURVIVED", s)
